@@ -248,6 +248,11 @@ def gen(rng, nrng, tier):
                 # the covariance solver sees `lag` samples: its least-squares problem has a unique solution
                 # (what the model computes) only when lag - P >= P; otherwise lstsq returns a minimum-norm solution
                 yield ("arma" if lag >= 2 * P else "arma_laws", {"x": x, "P": P, "Q": Q2, "lag": lag, "dkind": kind})
+    for i in range(6 if tier == "quick" else 60):      # boundary of the MA domain: the longest admissible AR fit, M = N - 1
+        cplx = bool(i % 2)
+        N = int(nrng.integers(8, 15))
+        x = _arma_data(nrng, N, cplx, "noise", True)
+        yield ("ma", {"x": x, "Q": 1 + i % 3, "M": N - 1, "dkind": "noise"})
     for i in range(8 if tier == "quick" else 60):      # boundary of the domain: lag + 2P - Q == N
         cplx = bool(i % 2)
         P = 1 + i % 3
